@@ -152,9 +152,19 @@ def main():
         if m["expect"] == "reject":
             key = "accepted-tamper:" + m["class"]
         elif m["expect"] == "essence" and m["base"] >= 0:
+            # an accepted altered message may only contain signed contents its accepted original
+            # contained, and must resolve every hash the original resolved to the same decoded
+            # message of the same proto type
             b = by_case.get(m["base"])
-            if b is not None and b["res"] == "Accept" and m["essence"] != b["essence"]:
-                key = F11 if m["essence_nt"] == b["essence_nt"] else "accepted-tamper:" + m["class"]
+            if b is not None and b["res"] == "Accept":
+                bp, bw, mw = set(b.get("parts_d") or []), b.get("wins") or {}, m.get("wins") or {}
+                if not set(m.get("parts_d") or []) <= bp:
+                    key = "accepted-tamper:" + m["class"]
+                else:
+                    for h, w in mw.items():
+                        if h in bw and w != bw[h]:
+                            same_content = w.split("|")[1] == bw[h].split("|")[1]
+                            key = F11 if same_content else "accepted-tamper:" + m["class"]
         if key:
             flagged.add((m["trace"], m["index"]))
             what = "handle ACCEPTED an altered message (%s %s %s; original accepted)" % (m["class"], m["path"], m["op"])
